@@ -15,7 +15,7 @@ CLAIMED = {
         text="Seeded search over random bytes, byte-corrupted framed streams and conforming streams with 1-4 structure-aware corruption faults x all modes/options x file/pipe x schedules x read faults (short, EINTR, EIO); oracle: no panic in any managed thread, no deadlock, step budget, wall-clock limit, no fatal signal, exit status in {0,1,N}. Hangs are deterministic deadlock reports under the scheduler. The thorough tier runs the scenario twice: 150000 cases with simulator + code under test built with AddressSanitizer (memory errors abort the simulated process), then 600000 cases with the plain build. Workload additions: the repository's sample files with byte corruption, a no-command mode, many batches with a capped reader queue, an ignored -o, clock jumps.",
         note="panic=unwind build of the same sources stands in for the shipped panic=abort build; allocation failure is out of scope; std itself is not ASan-instrumented."),
     "C05": dict(level="exploration", ref="DESIGN.md §3 C05",
-        text="For each (input, command line): one canonical-schedule run, then 8 (quick) / 24 (thorough) runs under random, PCT and starvation policies with capped queues and benign I/O faults; all listed outputs must be byte-identical (WARN lines as a multiset). Distinct interleavings and collector arrival orders are measured. Workloads added after seeded-change rounds: an overlap (memory size > offset-to-next, or offset-to-next shrunk into the payload) that makes two validators report at ONE position - different kinds and same kind with different bytes; an ignored -o next to the check; the repository's sample files; link / FEE / stave filters, half of them on a stream whose first packet belongs to another known system and is skipped (reader-side and analysis-side facts race to the collector); custom checks files and -w display filters; the threads' hash-table seeds follow the run's schedule seed (getrandom seam), so an order leaking from a hash table counts as schedule dependence.",
+        text="For each (input, command line): one canonical-schedule run, then 8 (quick) / 24 (thorough) runs under random, PCT and starvation policies with capped queues and benign I/O faults; all listed outputs must be byte-identical (WARN lines as a multiset). Distinct interleavings and collector arrival orders are measured. Workloads added after seeded-change rounds: an overlap (memory size > offset-to-next, or offset-to-next shrunk into the payload) that makes two validators report at ONE position - different kinds and same kind with different bytes; an ignored -o next to the check; the repository's sample files; link / FEE / stave filters, half of them on a stream whose first packet belongs to another known system and is skipped (reader-side and analysis-side facts race to the collector); custom checks files and -w display filters; the threads' hash-table seeds follow the run's schedule seed (getrandom seam), so an order leaking from a hash table counts as schedule dependence; several FEE IDs on one link number in stave mode (a link filter then selects several validators), an ignored -o that names stdout, planned frames with lanes announcing a fatal state on every stave, one error flood of more than 10000 messages.",
         note="Thread switches happen only at channel operations, spawn, join and thread exit; sound for this code base because all cross-thread effects are such operations plus two flags read at loop heads."),
     "C03": dict(level="exploration", ref="DESIGN.md §3 C03",
         text="Well-framed streams with arbitrary headers (0/1/batch multiples/2-260 packets, thorough to 20000; payloads 0-10000 bytes or word sequences) x filter x 3-4 payload-handling paths (view rdh from file=seek and pipe=read-discard, check sanity skipped/loaded, data view) under schedules, capped queues, short reads/EINTR; oracle = independent chain walker: rows, offsets, decoded fields, word bytes, rdhs_seen/rdhs_filtered/payload_size. Also: the repository's sample files; one stream beyond 4 GiB per quick run (rows of view rdh and the order of error positions on both sides of 2^32, delivered through a repeating pipe seam); streams of 120-350 jumbo packets (8200-10000 payload bytes: whole batches above 800 KiB); an ignored -o next to filtered views and checks (no second consumer of the reader's batches).",
@@ -30,7 +30,7 @@ CLAIMED = {
         text="Stop conditions placed inside active work: stop event injected at step 1 / last / uniformly drawn decision steps; stdout failing (EPIPE/ENOSPC) after 0 / len-1 / uniform N bytes in views, filtered data, statistics and report; error cap; mid-stream fatal framing error; crossed with random/PCT/starvation schedules and queue capacities capped to 1..8 (full queues). Oracle: no panic, no deadlock, all managed threads finished within the step budget, exit status allowed, partial -o file = whole packets and a prefix of the expected data. Bounded reaction measured in the program's own actions: input bytes read after the stop flag was raised (by the injected event or by the program) <= one batch + read-ahead; a view's failed write must be noticed (fatal reported or stop flag raised). Workloads: many batches with the reader queue capped to 1..2, an ignored -o next to checks, an error storm below the cap, input ending inside a packet while filtered data is written. The work left at the stop event is bounded by configuration: no data queue holds more undelivered packets than the largest configured capacity. 1 case in 13 runs on an input that NEVER ends (the pipe seam delivers the stream over and over) where the stop condition - unknown system ID in the first packet, stop event at a drawn step or at a drawn input byte (reaches a reader skipping between two decision steps), error cap, stdout going away - is the only way out: under a fair seeded schedule with queues capped to 1..4 the run must end within 150000 decision steps.",
         note="The ctrlc helper thread and real signal delivery are replaced by the store they perform; bounded liveness = 50 x reference steps + 5000 (finite inputs), 150000 steps from the stop condition (endless inputs, fair random schedules only: under PCT/starvation a starved collector legitimately never raises the flag)."),
     "C18": dict(level="fault_enumeration", ref="DESIGN.md §3 C18",
-        text="Crash-point enumeration: for small streams EVERY cut position 0..len, for larger ones every structural boundary (+-1) plus seeded positions; file (shorter file) and pipe (seam answers EOF at byte k); five check modes (findings compared) and views (rows compared); conforming and corrupted multi-link streams; under schedules. Oracle: normal end, findings below the incomplete packet identical to the untruncated run, view rows a prefix. Classes added: payloads above 8 KiB, an exact batch multiple of selected packets followed by skipped ones, small packets with header-only ones; a cut exactly between two packets leaves nothing incomplete (no message at or behind it); view rows of complete packets must not be missing; untruncated runs ending in a fatal are excluded; the boundary oracles apply where offset-to-next and memory size of the packets agree (otherwise the tool's reading position and the walker's boundaries differ by design).",
+        text="Crash-point enumeration: for small streams EVERY cut position 0..len, for larger ones every structural boundary (+-1) plus seeded positions; file (shorter file) and pipe (seam answers EOF at byte k); five check modes (findings compared) and views (rows compared); conforming and corrupted multi-link streams; under schedules. Oracle: normal end, findings below the incomplete packet identical to the untruncated run, view rows a prefix. Classes added: payloads above 8 KiB, an exact batch multiple of selected packets followed by skipped ones, small packets with header-only ones; a cut exactly between two packets leaves nothing incomplete (no message at or behind it); view rows of complete packets must not be missing; untruncated runs ending in a fatal are excluded; the boundary oracles apply where offset-to-next and memory size of the packets agree (otherwise the tool's reading position and the walker's boundaries differ by design); inputs several times the reader's 50 KiB buffer.",
         note="Frame messages are compared only when the frame end they quote lies before the cut."),
     "C07": dict(level="exploration", ref="DESIGN.md §3 C07",
         text="Well-framed streams whose slot size matches the header's data format (random ITS words with arbitrary headers; conforming streams with layout-preserving corruption) x five check modes x filters x -m/statistics file x file/pipe x schedules; every message's leading offset, 10-byte dump, `current :` RDH row and quoted frame end is compared with the input through the independent walker/decoder. Also the repository's sample files with bits flipped inside payload words; 0xFF filler bytes in data format 0.",
@@ -39,7 +39,7 @@ CLAIMED = {
         text="(1) word table of the readout-frame views == independent word table for 0..700 words, both formats, padding 0..15, all size residues; (2) planted invalid-ID words in conforming streams reported exactly at their offsets; (3) excess-padding fault mid-continuation / before a stop page: one payload error at the RDH, nothing inside the payload, next packet judged from the initial state (no further error / DDW0 judged as IHW). Both data formats for the excess-padding fault, a second faulty payload on the same link, unknown ID 0xFF and 0xFF filler bytes in the word tables; planted words behind an RDH that is itself faulty in a field that changes nothing about the packet (header size, priority bit, reserved bits).",
         note="The chunking itself is a pure function: its sweep is workload randomisation inside the simulator; the fault-and-recovery half is the simulation-specific part."),
     "C16": dict(level="exploration", ref="DESIGN.md §3 C16",
-        text="Input classes (clean, k errors, mid-stream fatal framing error, non-ALICE, missing file, empty) x check modes x -E n x display options (-m, -w code lists incl. prefixes of other codes, -e N), each run under its own schedule; invalid option combinations through the real clap parser + validate_args. Oracle: exit-status table; Total Errors (report) == total_errors (file) == messages shown; -m/-w change only the display; -e N shows at most N; rejected command lines write nothing. Also: the fatal and the failed-custom-check classes through views and filtered writing, -w together with -e, custom-check-only failures under -w 9001/9002, the whole statistics file compared between plain and -m runs, -g and odd-case stats-file extensions among the rejected command lines; where the independent chain walk arrives at an out-of-range offset-to-next the fatal must be reported in every mode, also when the reader meets that RDH while skipping for a filter; the simulator runs the real init_config() (guarded process-arguments hook) in its own observed current directory.",
+        text="Input classes (clean, k errors, mid-stream fatal framing error, non-ALICE, missing file, empty) x check modes x -E n x display options (-m, -w code lists incl. prefixes of other codes, -e N), each run under its own schedule; invalid option combinations through the real clap parser + validate_args. Oracle: exit-status table; Total Errors (report) == total_errors (file) == messages shown; -m/-w change only the display; -e N shows at most N; rejected command lines write nothing. Also: the fatal and the failed-custom-check classes through views and filtered writing, -w together with -e, custom-check-only failures under -w 9001/9002, the whole statistics file compared between plain and -m runs, -g and odd-case stats-file extensions among the rejected command lines; where the independent chain walk arrives at an out-of-range offset-to-next the fatal must be reported in every mode, also when the reader meets that RDH while skipping for a filter; failing run expectations on top of data errors (caps and code filters apply to all messages together); the simulator runs the real init_config() (guarded process-arguments hook) in its own observed current directory.",
         note="The exit status is produced by the real util::lib::exit; the driver sim_main is a transcription of init::run."),
     "C19": dict(level="exploration", ref="DESIGN.md §3 C19",
         text="Arbitrary-header streams with random ITS words (all flag combinations) and conforming streams x three views x filters x file/pipe x schedules x short writes; rows parsed back: offsets, raw bytes, decoded attributes against a reference decoding from the documented bit layouts; styled == unstyled content; conforming data shows no error. Also: payloads up to 9900 bytes, unknown ID 0xFF, the repository's sample files with flipped word bits.",
@@ -54,13 +54,13 @@ CLAIMED = {
         text="Conforming multi-link streams + ONE entry of the stream-fault catalogue (59 entries: RDH sanity fields, packet loss/duplication/reordering, page/stop/orbit/trigger/FEE edits, status- and data-word IDs and reserved bits, state-dependent ITS rules, CDW index, lanes, excess padding, stave-level frames) at a seeded applicable position, run in all check modes under seeded schedules. One-sided oracle: >=1 message of the documented family at the offending RDH/word in every mode where the rule is active, exit status == -E value; purely stateful violations silent in check sanity. 59 catalogue entries: the TDH sanity faults also on continuation and choice-state TDHs, ID 0xFF on last words, excess padding in both data formats. Half of the stave-mode cases run once more with the stave filter of the faulty link and a trigger period configured.",
         note="The catalogue's code/offset/mode table is DESIGN.md appendix B (doc/checks_list.md + README); cascading extra errors are allowed."),
     "C06": dict(level="exploration", ref="DESIGN.md §3 C06",
-        text="Multi-link streams (conforming or with faults confined to single links): reference full run vs another merge of the same per-link sequences, the physically extracted single-link stream, a filter run, ONE single-threaded pass of the link through one real LinkValidator::run, and the stream with an extra fault on another link; messages normalised to (packet index in link, offset in packet) by the independent walker; per-link lists must be equal. Also: header-identity faults on a link's first packet, staves of one layer differing in one bit, two FEE IDs on one link, multi-link sample files; a filter run must report nothing for a link none of whose packets match; link numbers from the whole 8-bit range; one case with 257-300 staves.",
+        text="Multi-link streams (conforming or with faults confined to single links): reference full run vs another merge of the same per-link sequences, the physically extracted single-link stream, a filter run, ONE single-threaded pass of the link through one real LinkValidator::run, and the stream with an extra fault on another link; messages normalised to (packet index in link, offset in packet) by the independent walker; per-link lists must be equal. Also: header-identity faults on a link's first packet, staves of one layer differing in one bit, two FEE IDs on one link, multi-link sample files; a filter run must report nothing for a link none of whose packets match; link numbers from the whole 8-bit range; one case with 257-300 staves; a link filter on a link number shared by several FEE IDs; system IDs no detector has on later packets of a link (a system-ID fatal is only legitimate for the first packet of the input).",
         note="Grouping by link (by FEE ID in stave mode); each FEE ID is carried by one link in the generated streams."),
     "C13": dict(level="exploration", ref="DESIGN.md §3 C13",
         text="Frames from the independent ALPIDE encoder (legal and with exactly one broken rule: lanes missing/extra/wrong group, chip or lane bunch counter, inner chip ID, chip count on inner lanes, duplicate chip, lane without chip, empty frame; optional lane announcing fatal) with seeded lane-word interleaving and continuation splits, generated twice with different pixel-hit content; exact per-frame verdict (E72/E73/E74/E75/E701 + E900x) at the frame start against the reference model, readout-flag counters against the chips' trailer flags. Half of the second variants run muted (-m) with the verdicts read from the statistics file; fatal-lane announcements fall within the first frames of a plan: one, two or three lanes in the same frame, in half of the cases another lane a frame or two later.",
         note="The frame in which a lane announces a fatal state is not judged (documentation does not say whether the announcing lane still counts)."),
     "C15": dict(level="fault_enumeration", ref="DESIGN.md §3 C15",
-        text="History of runs: A writes the statistics file, B (other schedule seed, capacity cap, benign I/O faults) must accept it; then EVERY leaf of the stored file that the run also collects is perturbed one at a time (complete enumeration per file in 2 of 3 cases) and the input is changed by one packet: B must report the mismatch and exit with the -E status. All check modes, JSON/TOML, -m on/off, conforming and corrupted inputs. Also through views (1 in 6), with filters and a first link of another detector system, frame errors on two staves, a long stale statistics file at the output path, failing run expectations (custom checks file) whose messages and codes must round-trip, and a closed stdout (EPIPE) during every fifth drift run.",
+        text="History of runs: A writes the statistics file, B (other schedule seed, capacity cap, benign I/O faults) must accept it; then EVERY leaf of the stored file that the run also collects is perturbed one at a time (complete enumeration per file in 2 of 3 cases) and the input is changed by one packet: B must report the mismatch and exit with the -E status. All check modes, JSON/TOML, -m on/off, conforming and corrupted inputs. Also through views (1 in 6), with filters and a first link of another detector system, frame errors on two staves, a long stale statistics file at the output path, failing run expectations (custom checks file) whose messages and codes must round-trip, and a closed stdout (EPIPE) during every fifth drift run; every fourth perturbed leaf gets a value that does not fit its field (-1, 2^32, 256, an unknown system name).",
         note="One known finding (round trip after a mid-stream fatal input error depends on scheduling) is listed in known_findings.json under its own site."),
     "C20": dict(level="exploration", ref="DESIGN.md §3 C20",
         text="Custom-check files (all subsets of cdps/triggers_pht/rdh_version with values equal to, below and above the truth; absent/commented keys; all-default file vs no file; OB chip count/orders on planned frames) and trigger period P vs internal-trigger TDH sequences generated at P' with jitter and wrap-around: [E9001]/[E9002]/[E10]/[E9004]/[E9005]/[E45] iff configured != observed, nothing else, exit status accordingly; under seeded schedules. Trigger-period workloads include frames split over two pages and configured periods of a whole orbit and more.",
